@@ -719,7 +719,7 @@ func runSession(t *testing.T, cfg *sessCfg, job *sessJob, rng *mrand.Rand, sched
 	}
 	forge := func(b string, want map[string]any) fl {
 		peer := other(b)
-		kinds := []string{"req", "succ", "err", "ind"}
+		kinds := []string{"req", "succ", "err", "ind", "other"} // "other": any class with a non-Binding method
 		srcs := []string{"x9"}
 		for _, pl := range cfg.Loc[peer] {
 			if p, ok := cfg.Nat[pl]; ok {
@@ -731,7 +731,7 @@ func runSession(t *testing.T, cfg *sessCfg, job *sessJob, rng *mrand.Rand, sched
 		if p, ok := cfg.Nat[dst]; ok {
 			dst = p
 		}
-		mm := mmsg{From: "X", Kind: kinds[rng.Intn(4)], Src: srcs[rng.Intn(len(srcs))], Dst: dst, UC: rng.Intn(2) == 0, Prio: 9, Tbc: 1}
+		mm := mmsg{From: "X", Kind: kinds[rng.Intn(len(kinds))], Src: srcs[rng.Intn(len(srcs))], Dst: dst, UC: rng.Intn(2) == 0, Prio: 9, Tbc: 1}
 		ps := S[b].ag.VerifSnapshot()
 		pr := S[peer].ag.VerifSnapshot()
 		mm.RoleA = pr.Role // the peer's role as seen by b: never a conflict
@@ -746,6 +746,15 @@ func runSession(t *testing.T, cfg *sessCfg, job *sessJob, rng *mrand.Rand, sched
 		mm.User = users[rng.Intn(3)]
 		keys := [][2]any{{b, S[b].gen}, {peer, S[b].rgen}, {peer, 0}, {"X", 0}}
 		mm.Key = keys[rng.Intn(4)]
+		if mm.Kind == "other" && len(ps.Pend) > 0 && rng.Intn(2) == 0 {
+			// the most tempting shape: signed with the remote password, carrying the transaction id of an outstanding check,
+			// coming from the address that check went to
+			x := ps.Pend[rng.Intn(len(ps.Pend))]
+			mm.Tid = S[b].tids[x.Tid]
+			raw = S[b].raw[mm.Tid]
+			mm.Src = sym(x.Dst)
+			mm.Key = [2]any{peer, S[b].rgen}
+		}
 		if want != nil { // schedule replay: the model chose the message
 			mm.Kind, _ = want["kind"].(string)
 			mm.Src, _ = want["src"].(string)
@@ -785,8 +794,15 @@ func runSession(t *testing.T, cfg *sessCfg, job *sessJob, rng *mrand.Rand, sched
 			}
 		}
 		cls := map[string]stun.MessageClass{"req": stun.ClassRequest, "succ": stun.ClassSuccessResponse, "err": stun.ClassErrorResponse, "ind": stun.ClassIndication}[mm.Kind]
+		meth := stun.MethodBinding
+		if mm.Kind == "other" {
+			// a non-Binding method; mostly dressed as the success response an outstanding check is waiting for (the tid, key and
+			// source choices above apply), sometimes as another class
+			meth = []stun.Method{stun.MethodAllocate, stun.MethodRefresh, stun.MethodCreatePermission, stun.MethodChannelBind, stun.MethodSend}[int(raw[0])%5]
+			cls = []stun.MessageClass{stun.ClassSuccessResponse, stun.ClassSuccessResponse, stun.ClassRequest, stun.ClassIndication}[int(raw[1])%4]
+		}
 		setters := []stun.Setter{
-			stun.NewType(stun.MethodBinding, cls), stun.NewTransactionIDSetter(raw),
+			stun.NewType(meth, cls), stun.NewTransactionIDSetter(raw),
 			stun.NewUsername(uf(b, mm.User[0], false) + ":" + uf(peer, mm.User[1], true)),
 		}
 		if mm.UC {
